@@ -78,6 +78,18 @@ CHECKS.update({
         design='DESIGN.md §4 C18', engine='worlds+refmodel+histories'),
 })
 
+CHECKS.update({
+    'C11': dict(
+        technique='exhaustive enumeration of all strings <= 5 (7) over a 6-letter alphabet x global_vars menu x container positions on the real substitution, vs an independent tokenizer; Config/Context leg',
+        text='Every string of length <= 5 (quick) / 7 (thorough) over {"{","}",A,B,x,space} plus newline/long-name/unicode cases, under 11 global_vars (dicts, object, module, '
+             'values that themselves contain braces), alone and inside five list/dict container shapes to depth 3, is sent through the real search_and_replace_placeholders and '
+             'compared with an independent left-to-right tokenizer; also idempotence (same object on re-application), identity of non-strings, str-like behaviour, and repr of '
+             'the string and of copy/deepcopy of it and of its container. Part B checks parameter values vs persistence representations, config `uses`, context values, '
+             'context `uses` (string / list / namespaced / nested) and object-definition arguments through real Config/Context/Chain objects.',
+        note='Trusts the 25-line tokenizer refmodel.substitute; tuples/sets and `{{A}}` escapes are outside the stated domain.',
+        design='DESIGN.md §4 C11', engine='enumvals+worlds+refmodel'),
+})
+
 PENDING_REASON = 'check not built yet in this round (planned per DESIGN.md §4; technique applies)'
 
 
